@@ -320,15 +320,15 @@ SCHEMA_HISTORY = (" Generated schemas: names over a tiny alphabet (ASCII letters
                   "prefixes, extensions, case variants and concatenation twins (a.x_n / a_x.n); one soft type in four is derived from another used type "
                   "(New, Copy, rename, add a field); one schema in four is built through a longer edit history (a throw-away type added and removed), "
                   "one in six has its types taken out and put back in order, the schema being really used (lookups, Check, Rels, URL parsing, "
-                  "full and partial unmarshaling) while the order is not the final one; struct-backed types declare their ID field anywhere, take it from an embedded struct, or give it a defined string type, may embed a struct with tagged fields (to be ignored) and carry an untagged field with an attribute's json name; now and then one type has 60-80 fields (possibly with long names), rarely 33-40 relationships; one schema in eight has a field called ID, Id, iD or Type; times may be located in time.Local (pinned to +02:00) and include the ends of the year range written in a zone that moves their UTC year out of it; to-many values may hold an empty ID; IDs may be made of a, b, comma and blank; byte strings of 47-200 bytes now and then; incoherent schemas may have 15-26 types and dangling targets that nearly match a type name.")
+                  "full and partial unmarshaling) while the order is not the final one; struct-backed types declare their ID field anywhere, take it from an embedded struct, or give it a defined string type, may embed a struct with tagged fields (to be ignored) and carry an untagged field with an attribute's json name; now and then one type has 60-80 fields (possibly with long names), rarely 33-40 relationships; one schema in eight has a field called ID, Id, iD or Type; times may be located in time.Local (pinned to +02:00) and include the ends of the year range written in a zone that moves their UTC year out of it; to-many values may hold an empty ID; IDs may be made of a, b, comma and blank, read like numbers (007, +5, 1e3) or like percent-encodings (100%25); byte strings of 47-200 bytes now and then; incoherent schemas may have 15-26 types and dangling targets that nearly match a type name.")
 EXTRA_RULE = {
     "C01": SCHEMA_HISTORY + " One soft resource in five has a field (attribute or relationship) that replaced a placeholder in its type after the "
            "values were set (reads as zero). Times include landmark instants (zero time in UTC and +05:30, Unix epoch, year 9999). One case in five marshals the resource as a collection member, marshals other collections, then reads the first payload (the member in front may carry the same ID; one case in ten puts 29-129 fillers in front); every pointer and slice of what came back is overwritten afterwards.",
     "C02": SCHEMA_HISTORY + " Members may be soft resources on a trimmed type of the same name, or soft resources / soft collections whose type was edited "
            "after the values were set; one list in 25 has 30-70 members; meta strings that look like timestamps, numbers, booleans, base64; URL with any "
-           "subset of size/number/custom page parameters and a filter label or and/or tree; error statuses include real HTTP codes; one member in ten has no ID yet; documents without data get a collection URL half the time; one document in 25 includes 30-70 resources (long lists have explicit sizes around powers of two, up to 130); one to-many value in forty has 31-65 IDs; a single resource may come with a URL of another type; float64 page values; Document.Resources nil, empty or with an unrelated entry; one case in three marshals two meta-only documents before the payload is read, and the reader's buffer is overwritten after UnmarshalDocument.",
+           "subset of size/number/custom page parameters and a filter label or and/or tree; error statuses include real HTTP codes; one member in ten has no ID yet; documents without data get a collection URL half the time; one document in 25 includes 30-70 resources (long lists have explicit sizes around powers of two, up to 130); one to-many value in forty has 31-65 IDs; a single resource may come with a URL of another type; float64 page values; meta numbers beyond the 64-bit integers; Document.Resources nil, empty or with an unrelated entry; one case in three marshals two meta-only documents before the payload is read, and the reader's buffer is overwritten after UnmarshalDocument.",
     "C03": SCHEMA_HISTORY + " 0-10 Include calls (one case in six: 11-48), a marshal may come between Include calls, Document.Resources nil / empty / "
-           "unrelated, prefixes containing %, lists of 30-70 members now and then; one case in three marshals three meta-only documents before the output is examined (it must not have changed); primary data one time in five as a cursor-style Collection of the harness' own; a resource without ID links to the prefix or prefix+type+/ exactly.",
+           "unrelated, prefixes containing %, lists of 30-70 members now and then; one case in three marshals three meta-only documents before the output is examined (it must not have changed); primary data one time in five as a cursor-style Collection of the harness' own; a resource without ID links to the prefix or prefix+type+/ exactly; every document is marshaled and validated twice; Include candidates may have no ID.",
     "C04": SCHEMA_HISTORY + " Documents as in C02 (trimmed soft members of the same type name, large lists, URL filters and page parameters); each document is marshaled three times with the same URL, the last time with a widened selection.",
     "C05": SCHEMA_HISTORY + " Mutated documents include lists of 30-70 members; mutations include editing a string in place (character dropped, "
            "prefix, suffix, doubled, emptied) and a links member in object form (href, meta of any JSON kind), type names in another letter case, list elements given twice; returned types are looked up by exact name in Schema.Types by the harness itself; request targets are path-escaped.",
@@ -336,20 +336,20 @@ EXTRA_RULE = {
            "one in four runs as the second member of a collection (UnmarshalCollection) whose first member is of any type; a bytes attribute must "
            "re-marshal as a JSON string; every accepted value and resource is overwritten in place afterwards (pointers, slices); time literals of year 0000; one collection-member case in ten has 31-40 members in front of the payload, the nearest one a full resource of the same type half the time; payloads with an unknown or missing type, ill meta/links members, empty or missing IDs in to-many lists.",
     "C07": SCHEMA_HISTORY + " Sort rules with several leading dashes and other decorations (up to 12 rules), fields lists naming fields of other types, "
-           "filter labels in any JSON escape style; two names differing by one leading character are sorted on longer first; a name from the far end of the sorted field list given twice; page values spelled as floats, hex, with underscores or non-ASCII digits; relationship.attribute sort rules.",
+           "filter labels in any JSON escape style; two names differing by one leading character are sorted on longer first; a name from the far end of the sorted field list given twice; page values spelled as floats, hex, with underscores or non-ASCII digits; relationship.attribute sort rules; one accepted URL in three is examined again after two more URLs were parsed.",
     "C08": SCHEMA_HISTORY + " Empty filter= / sort= / include= / fields[t]= among the accepted parameters; filter labels in any JSON escape style incl. "
            "whitespace + '{'; collations on combining filter nodes, whose members come in any order; filter trees compared member by member. The recorded finding fields-param-truncated is "
            "excused only when the text is read exactly like the same text without the truncated parameter. One case in twenty first prints a URL on which the pinned String panics (recovered).",
     "C09": " Attribute names with dashes, underscores, non-ASCII letters and 'id' inside; one ID list, filter and rules slice per case handed to every "
-           "Range call; every page returned during a case is read again at the end, after two unrelated Range calls on the same collection; collections of up to 70 members, an empty ID, instants far apart, byte strings of different lengths; every other soft collection has a past (members added in between and removed again); upper-case twins of attribute names; at the end of a case the same filter and rules are used once more without the ID list; a renamed-attribute past for soft collections; rarely 129-230 members (always filtered, pages of 50); collations on filter nodes; in lists of 8-20 values, overwritten in place before the filter is used once more; attributes called ID/Id/iD; IDs over a, b, c, 0, 1, 2.",
+           "Range call; every page returned during a case is read again at the end, after two unrelated Range calls on the same collection; collections of up to 70 members, an empty ID, instants far apart, byte strings of different lengths; every other soft collection has a past (members added in between and removed again); upper-case twins of attribute names; at the end of a case the same filter and rules are used once more without the ID list; a renamed-attribute past for soft collections; rarely 129-230 members (always filtered, pages of 50); collations on filter nodes; in lists of 8-20 values, overwritten in place before the filter is used once more; attributes called ID/Id/iD; IDs over a, b, c, 0, 1, 2; two members exchange a sorted value between two identical requests.",
     "C10": " One built filter is evaluated, some of its leaf values are replaced (in place for lists of equal length) and it is evaluated again; leaf "
            "filters whose value is the one read from the resource itself (same pointer / slice); filters that use one sub-filter object at several "
            "places; unknown operators that look like known ones (==, !==, <==, =<, <>, '', IN, Has); ordering operators on to-one relationships (lexicographic), zero-prefixed and neighbouring IDs; to-many sets that read alike when joined with commas; lists of filters under unknown operators; collations on nodes; in lists of 8-20 values; every other wrapped twin wraps the filled struct by value; attributes called ID/Id/iD; wide (60-140 groups) and deep (60-140 levels) trees around a generated one; a soft resource nobody has read yet.",
     "C11": SCHEMA_HISTORY + " Documents as in C02; included IDs chosen so that type+ID (either order) coincide with an earlier included resource when the "
            "type names allow it; after the repeated marshals the lists of the same document and URL objects are permuted in place and marshaled again; "
-           "the observable state includes page parameters, filter label and filter tree as they read, the relationship-data lists of document and URL and the included list as multisets; a primary resource may also be listed among the included; lists may come with a URL that is not a collection URL; resources now and then carry meta (null members included) which is part of the observable state; page values are shown with their Go type; one document in four may include different types under one ID (up to 12 included, equal-ID members keep the caller's order in the twin).",
+           "the observable state includes page parameters, filter label and filter tree as they read, the relationship-data lists of document and URL and the included list as multisets; a primary resource may also be listed among the included; lists may come with a URL that is not a collection URL; resources now and then carry meta (null members included) which is part of the observable state; the included list may first have been built through Include; page values are shown with their Go type; one document in four may include different types under one ID (up to 12 included, equal-ID members keep the caller's order in the twin).",
     "C12": SCHEMA_HISTORY + " Further operation: New() on schema.Types[i] itself. At most one relationship with an empty FromType. Unmarshal results are "
-           "kept and re-read when a goroutine's list is done; a result's resource-level meta must be empty or the request's own. Operations marshal-softcol, roundtrip-document, new-request and unmarshal-collection (data or included lists, now and then 33+ members); bursts of 61 parses of one URL; IDs of 128-320 bytes; a goroutine now and then repeats the request text of another one; large schemas of 8-22 types with dangling relationships; a run that does not finish in 60 s is a violation (deadlock) with its history printed.",
+           "kept and re-read when a goroutine's list is done; a result's resource-level meta must be empty or the request's own. Operations marshal-softcol, roundtrip-document, new-request and unmarshal-collection (data or included lists, now and then 33+ members); bursts of 61 parses of one URL and of 21 unmarshals of one list body; IDs of 128-320 bytes; a goroutine now and then repeats the request text of another one; large schemas of 8-22 types with dangling relationships; a run that does not finish in 60 s is a violation (deadlock) with its history printed.",
     "C13": SCHEMA_HISTORY + " Trailing text after the resource object; to-many lists of the partial and the full result compared in order; unknown "
            "relationships without data; names placed under the wrong member (a relationship among the attributes, an attribute among the relationships); unknown or missing type with or without fields; linkage identifiers with a missing, numeric or foreign type; relationship objects whose links/meta are empty, null or absent; one-way relationships without FromType; half of the struct-backed types keep their relationships exactly as BuildType returns them.",
     "C14": " Names include a_b / a-b types, non-ASCII names, two-way relationships whose ends concatenate to the same string, invalid kinds next to the "
@@ -360,10 +360,10 @@ EXTRA_RULE = {
            "Schemas are built a third way: types first, then one relationship or pair at a time through AddRel / AddTwoWayRel in any order, with or "
            "without a Rels() query between edits. Concatenation twins in generated schemas; one schema in five is dense (3-6 types, up to 45 edges: lists of more than a dozen entries).",
     "C17": " Actions also include Equal/EqualStrict calls between Set and Get, Set(bytes, []byte(nil)), attributes whose names differ only by letter "
-           "case; equality pairs include to-many lists that print alike, null against a pointer to the zero value, one empty ID, the same attribute name with another kind and a look-alike value, the inverse end of a same-type pair, an attribute for a relationship, a never-touched resource against one holding a value; type names beginning like tag keywords (relatives, rel-x, attrs); relationship-only types; struct types with a defined string type as ID, embedded structs with tagged fields, shadow fields, now and then 62-72 attributes (then compared in full after one step in eight and at the end).",
+           "case; equality pairs include to-many lists that print alike, null against a pointer to the zero value, one empty ID, the same attribute name with another kind and a look-alike value, the inverse end of a same-type pair, an attribute for a relationship, the same relationship with the other cardinality, a never-touched resource against one holding a value; type names beginning like tag keywords (relatives, rel-x, attrs); relationship-only types; struct types with a defined string type as ID, embedded structs with tagged fields, shadow fields, now and then 62-72 attributes (then compared in full after one step in eight and at the end).",
     "C18": " Slices with spare capacity at copy time and append-through-Get operations on both sides; Type.Copy of soft and struct-backed types, "
            "possibly used (New) before the copy, with New on either side afterwards; Fields() and the content of the type compared; types as in C17, soft sources with blank FromType; a field-less soft resource with an ID is copied too; RemoveField leaves the other fields of the mutated side as they were; every history ends with one more New or Copy from the source, which must be of the source's type as it is then.",
-    "C19": " The collection type may leave an unused field map unallocated; Resource(id) is compared with At(first position of that ID); names P and M next to p and m. Kinds include nullable bytes/time/bool; IDs include the empty ID; SetType may retarget a kept relationship; members are read after two "
+    "C19": " The collection type may leave an unused field map unallocated; Resource(id) is compared with At(first position of that ID); names P and M next to p and m; members may be added to their own collection. Kinds include nullable bytes/time/bool; IDs include the empty ID; SetType may retarget a kept relationship; members are read after two "
            "operations in three only (what a stored resource exposes must not depend on reads in between); one history in four adds 10-45 members at once and may remove many; several members may share one *Type.",
     "C20": " Tags rel,,inv and rel,,; json names differing only by case; after everything else the built type is edited and BuildType is called again; interface-typed fields, embedded structs with tagged fields, now and then 65-68 fields.",
 }
